@@ -1,6 +1,7 @@
 package main
 
 import (
+	"go/token"
 	"go/types"
 	"sort"
 	"strings"
@@ -326,7 +327,153 @@ var reentryAPI = []string{
 	"(*PostingsIterator).Next", "(*PostingsIterator).Advance",
 }
 
+// fnValSrc describes what a function-typed parameter can be bound to.
+type fnValSrc struct {
+	fns  map[*ssa.Function]bool
+	user bool // may be a function supplied from outside the package
+}
+
+func isExportedEntry(f *ssa.Function) bool {
+	if f.Parent() != nil {
+		return false
+	}
+	if f.Signature.Recv() != nil {
+		// methods can be reached through interfaces even if their name is lower-case; be conservative for exported names
+		return token.IsExported(f.Name())
+	}
+	return token.IsExported(f.Name())
+}
+
+// computeFnValueSources: for every function-typed parameter of a package function,
+// the closures in-package callers pass, and whether an outside caller may bind it.
+func (w *World) computeFnValueSources() {
+	w.fnSrc = map[*ssa.Parameter]*fnValSrc{}
+	get := func(p *ssa.Parameter) *fnValSrc {
+		s := w.fnSrc[p]
+		if s == nil {
+			s = &fnValSrc{fns: map[*ssa.Function]bool{}}
+			w.fnSrc[p] = s
+		}
+		return s
+	}
+	for _, f := range w.FnAll {
+		for _, p := range f.Params {
+			if _, ok := p.Type().Underlying().(*types.Signature); ok {
+				s := get(p)
+				if isExportedEntry(f) {
+					s.user = true
+				}
+			}
+		}
+	}
+	type flow struct {
+		from *ssa.Parameter
+		to   *ssa.Parameter
+	}
+	var flows []flow
+	for _, f := range w.FnAll {
+		for _, b := range f.Blocks {
+			for _, ins := range b.Instrs {
+				ci, ok := ins.(ssa.CallInstruction)
+				if !ok {
+					continue
+				}
+				c := ci.Common()
+				var targets []*ssa.Function
+				off := 0
+				if c.IsInvoke() {
+					iface := c.Value.Type().Underlying().(*types.Interface)
+					for _, g := range w.FnAll {
+						if g.Signature.Recv() != nil && g.Name() == c.Method.Name() && types.Implements(g.Signature.Recv().Type(), iface) {
+							targets = append(targets, g)
+						}
+					}
+					off = 1
+				} else if g, ok := c.Value.(*ssa.Function); ok && (g.Pkg == w.Pkg || (g.Parent() != nil && g.Parent().Pkg == w.Pkg)) {
+					targets = append(targets, g)
+				} else if mc, ok := c.Value.(*ssa.MakeClosure); ok {
+					targets = append(targets, mc.Fn.(*ssa.Function))
+				}
+				for _, g := range targets {
+					for i, a := range c.Args {
+						pi := i + off
+						if pi >= len(g.Params) {
+							continue
+						}
+						gp := g.Params[pi]
+						if _, ok := gp.Type().Underlying().(*types.Signature); !ok {
+							continue
+						}
+						for {
+							if x, ok := a.(*ssa.ChangeType); ok {
+								a = x.X
+								continue
+							}
+							break
+						}
+						switch v := a.(type) {
+						case *ssa.MakeClosure:
+							get(gp).fns[v.Fn.(*ssa.Function)] = true
+						case *ssa.Function:
+							get(gp).fns[v] = true
+						case *ssa.Parameter:
+							flows = append(flows, flow{v, gp})
+						case *ssa.Const:
+							// nil function value
+						default:
+							get(gp).user = true // loaded from memory etc.: unknown
+						}
+					}
+				}
+			}
+		}
+	}
+	for changed := true; changed; {
+		changed = false
+		for _, fl := range flows {
+			src, dst := get(fl.from), get(fl.to)
+			if src.user && !dst.user {
+				dst.user = true
+				changed = true
+			}
+			for g := range src.fns {
+				if !dst.fns[g] {
+					dst.fns[g] = true
+					changed = true
+				}
+			}
+		}
+	}
+}
+
+// FnValueTargets: possible targets of a call through function value v.
+func (w *World) FnValueTargets(v ssa.Value) (fns []*ssa.Function, user bool) {
+	for {
+		if x, ok := v.(*ssa.ChangeType); ok {
+			v = x.X
+			continue
+		}
+		break
+	}
+	switch x := v.(type) {
+	case *ssa.MakeClosure:
+		return []*ssa.Function{x.Fn.(*ssa.Function)}, false
+	case *ssa.Function:
+		return []*ssa.Function{x}, false
+	case *ssa.Parameter:
+		if s := w.fnSrc[x]; s != nil {
+			for g := range s.fns {
+				fns = append(fns, g)
+			}
+			sort.Slice(fns, func(i, j int) bool { return w.FnName(fns[i]) < w.FnName(fns[j]) })
+			return fns, s.user
+		}
+	}
+	return nil, true
+}
+
 func (w *World) computeModsets() {
+	w.computeFnValueSources()
 	w.modsets = map[*ssa.Function]map[string]bool{}
 	w.ifaceOf = map[string]types.Type{}
 	w.allocs = map[*ssa.Function]bool{}
@@ -442,13 +589,14 @@ func (w *World) computeModsets() {
 						continue
 					}
 					if callee == nil {
-						// call of a function value: caller-supplied callback (may re-enter
-						// the read API) or one of the package's own closures of that type
-						reentrant[f] = true
-						for _, g := range w.FnAll {
-							if g.Parent() != nil && types.Identical(g.Signature, c.Signature()) {
-								edges = append(edges, edge{f, g})
-							}
+						// call of a function value: one of the closures in-package callers bind,
+						// and/or a caller-supplied callback (which may re-enter the read API)
+						fns, user := w.FnValueTargets(c.Value)
+						if user {
+							reentrant[f] = true
+						}
+						for _, g := range fns {
+							edges = append(edges, edge{f, g})
 						}
 						continue
 					}
